@@ -40,11 +40,13 @@ type c08Op struct {
 func reachable(dir string) map[string]bool {
 	st := oracle.LayoutStore{Dir: dir}
 	out := map[string]bool{}
+	walked := map[string]bool{} // manifests walked; not the same as "marked": a digest may be a layer of one manifest and a manifest elsewhere
 	var visit func(d string)
 	visit = func(d string) {
-		if out[d] {
+		if walked[d] {
 			return
 		}
+		walked[d] = true
 		out[d] = true
 		raw, _, ok := st.Manifest(d)
 		if !ok {
@@ -83,6 +85,16 @@ func runC08(e *core.Env) {
 		gr.Install(src, "proj/app", fmt.Sprintf("i%d", i))
 		imgs = append(imgs, gr)
 	}
+	// a fourth image: an artifact that carries the bytes of another image's top manifest as its layer (what
+	// tools that archive or attest manifests store); the same digest is then a layer of one tag and a
+	// manifest of another
+	{
+		carried := imgs[1+e.Choose("gen", 2, "carried")].Root
+		car := g.ArtifactCarrying(carried.Raw, carried.MediaType, "application/vnd.example.manifest-archive")
+		cg := &gen.Graph{Root: car, Shape: "artifact-carrying-manifest", Alg: g.Alg, DigestTags: map[string]*gen.Node{}}
+		cg.Install(src, "proj/app", "i3")
+		imgs = append(imgs, cg)
+	}
 	// the layout already holds image 0 under the tag "pre" (as an earlier run left it): copying it there again
 	// finds everything in place and writes nothing
 	if err := imgs[0].InstallLayout(dir, "pre", true); err != nil {
@@ -92,15 +104,15 @@ func runC08(e *core.Env) {
 	tags := []string{"a", "b", "c"}
 	nt := 1 + e.Choose("gen", 3, "tasks")
 	progs := make([][]c08Op, nt)
-	kinds := []string{"copy", "copy", "copy-present", "copy-referrers", "copy-sparse", "tag-delete", "manifest-delete", "push-referrer", "delete-referrer", "close", "close"}
+	kinds := []string{"copy", "copy", "retag-in-layout", "copy-present", "copy-referrers", "copy-sparse", "tag-delete", "manifest-delete", "push-referrer", "delete-referrer", "close", "close"}
 	for t := range progs {
 		for i, n := 0, 2+e.Choose("gen", 4, "ops"); i < n; i++ {
 			op := c08Op{Kind: kinds[e.Choose("gen", len(kinds), "kind")], Img: e.Choose("gen", len(imgs), "img"), Tag: tags[e.Choose("gen", len(tags), "tag")], Arg: e.Choose("gen", 2, "arg")}
 			progs[t] = append(progs[t], op)
 		}
 	}
-	e.SetCase(fmt.Sprintf("%v|%s|%s|%s", progs, imgs[0].Root.Digest, imgs[1].Root.Digest, imgs[2].Root.Digest), true,
-		map[string]any{"tasks": progs, "images": []any{imgs[0].Describe(), imgs[1].Describe(), imgs[2].Describe()}})
+	e.SetCase(fmt.Sprintf("%v|%s|%s|%s|%s", progs, imgs[0].Root.Digest, imgs[1].Root.Digest, imgs[2].Root.Digest, imgs[3].Root.Digest), true,
+		map[string]any{"tasks": progs, "images": []any{imgs[0].Describe(), imgs[1].Describe(), imgs[2].Describe(), imgs[3].Describe()}})
 
 	// a copy counts as in progress from its first I/O (network or disk, by its task or a descendant)
 	// until it returns: before that it cannot have anything in flight
@@ -172,6 +184,16 @@ func runC08(e *core.Env) {
 			err = rc.ImageCopy(ctx, mustRef(fmt.Sprintf("src.test/proj/app:i%d", op.Img)), mustRef(base+":"+op.Tag), opts...)
 			delete(active, me)
 			e.Probe("copy")
+		case "retag-in-layout":
+			// a copy whose source and target are this layout: between reading the source manifest and writing the
+			// new tag the content hangs on the source tag alone, which another task may delete meanwhile
+			from := []string{"pre", "a", "b", "c"}[(op.Img+op.Arg)%4]
+			if from != op.Tag {
+				active[me] = false
+				err = rc.ImageCopy(ctx, mustRef(base+":"+from), mustRef(base+":"+op.Tag))
+				delete(active, me)
+				e.Probe("retag-within-layout")
+			}
 		case "copy-present":
 			// a copy that finds its target up to date and writes nothing
 			active[me] = false
@@ -283,7 +305,18 @@ func runC08(e *core.Env) {
 				what = "tmp-file-left"
 			}
 		}
-		e.Violation("gc-collects", what, "a collection ran with nothing in progress, yet %d unreachable files remain: %s", len(left2), strings.Join(left2, ", "))
+		// (diagnostics: which stored files mention a file that was left)
+		var mention []string
+		for _, l := range left2 {
+			hex := l[strings.IndexByte(l, '/')+1:]
+			ents, _ := os.ReadDir(filepath.Join(dir, "blobs", "sha256"))
+			for _, en := range ents {
+				if b, err := os.ReadFile(filepath.Join(dir, "blobs", "sha256", en.Name())); err == nil && len(hex) > 16 && strings.Contains(string(b), hex) {
+					mention = append(mention, short("sha256:"+en.Name())+" mentions "+short("sha256:"+hex)+fmt.Sprintf(" (reachable=%v): %.700s", reach["sha256:"+en.Name()], b))
+				}
+			}
+		}
+		e.Violation("gc-collects", what, "a collection ran with nothing in progress, yet %d unreachable files remain: %s; tags %v; %s", len(left2), strings.Join(left2, ", "), oracle.TagSnapshot(dir), strings.Join(mention, "; "))
 	}
 	// every tag still resolves to content that is all there (children a sparse copy left out excepted)
 	st := oracle.LayoutStore{Dir: dir}
